@@ -5,7 +5,7 @@
    the example's own output, of the echoed value, or of an expected traceback's final line, xdoctest accepts
    under every flag setting; the standard module itself is used as an executable oracle by the harness. *)
 From XD Require Import Model.Base Model.Ellipsis Model.Checker Model.Text Model.Parser Model.Directive Model.RunLoop
-  Proofs.RunWant Proofs.RunDecide Proofs.CompatProofs.
+  Proofs.RunWant Proofs.RunDecide Proofs.CompatProofs Model.StdDoctest Proofs.StdEllipsisProofs.
 
 Theorem C20_exact_output_accepted : forall fl got want, got = want -> check_output fl got want = true.
 Proof. exact exact_output_accepted. Qed.
@@ -33,3 +33,24 @@ Theorem C20_compat_refuted_F6 :
   part_check default_flags f6_want [] f6_stdout (EvalRepr f6_repr) = GW_gotwant.
 Proof. exact compat_refuted_F6. Qed.
 Print Assumptions C20_compat_refuted_F6.
+
+(* ELLIPSIS: whatever the standard module's wildcard matcher (doctest._ellipsis_match, modelled in
+   Model/StdDoctest.v and run against the interpreter's own doctest module by the harness) accepts, xdoctest's
+   matcher accepts -- for all texts, any number of markers *)
+Theorem C20_std_ellipsis_accepted : forall want got,
+  std_ellipsis_match want got = true -> ellipsis_match got want = true.
+Proof. exact std_ellipsis_implies_xdoctest. Qed.
+Print Assumptions C20_std_ellipsis_accepted.
+
+(* the two matchers cut the want at the same markers; xdoctest's pieces are the standard ones with text shaved
+   off next to the markers (the relation the proof rests on) *)
+Theorem C20_splits_related : forall s, PRel [] (split_std s) (split_ell s).
+Proof. exact split_std_ell_related. Qed.
+Print Assumptions C20_splits_related.
+
+(* the converse does not hold (xdoctest is the more permissive one): got 'axb' against want 'a ... b' *)
+Theorem C20_xdoctest_accepts_more :
+  ellipsis_match [97;120;98]%N [97;32;46;46;46;32;98]%N = true /\
+  std_ellipsis_match [97;32;46;46;46;32;98]%N [97;120;98]%N = false.
+Proof. exact xdoctest_accepts_more. Qed.
+Print Assumptions C20_xdoctest_accepts_more.
